@@ -26,6 +26,7 @@ import IocProofs.Lemmas.ConcLen
 import IocProofs.Lemmas.ConcReg
 import IocProofs.Lemmas.ConcPref
 import IocProofs.Lemmas.SemSync2
+import IocProofs.Lemmas.ConcNinth
 
 namespace Ioc.C20
 open Ioc.Conc
@@ -525,5 +526,52 @@ example : ∀ t op, op ∈ prefQueues 3 2 t → ∃ v, op = .loadOrStoreFn 1 v :
     the run — is what the oracle evaluates on the real map. The run the driver makes (two rangers, two store/delete rounds):
     no Range reports a pair nobody stored, none reports a key twice, none misses a permanent key. -/
 example : rdelObs 2 2 = (0, 0, 0) := by decide
+
+/-! ### ninth round: the factory driven directly
+
+`fdirect`: without the App nobody looks at the definition registry before the parallel scan; every scanning goroutine evaluates
+`factory.GetDefinitionRegistry()` itself (post_processor_registration_delegate.go:76). `factory.Default()` stored the registry
+in the field before the factory was handed out, the getter is one read of that field (section 9 of Ioc.Conc). -/
+
+/-- Any number of goroutines that read a field nobody writes, in any schedule: every one of them is handed the registry
+    `Default()` stored there, and the field still holds it afterwards. -/
+theorem C20_registry_getter_one_registry (k w : Nat) (m0 : MapSt) (h0 : m0 k = some w) (queue : Nat → List Op)
+    (hq : ∀ t op, op ∈ queue t → op = .load k) (sched : List Nat) :
+    (run factProgs (Sys.start m0 queue) sched).map k = some w ∧
+    ∀ e, e ∈ (run factProgs (Sys.start m0 queue) sched).hist → e.2.2 = .got (some w) true := by
+  have hex := C20_single_primitive_linearizable m0 queue (fun t op h => by rw [hq t op h]; rfl) sched
+  have hops := hist_ops_from_queue factProgs (fun op => op = .load k) sched (Sys.start m0 queue) hq
+    (by intro t c hc; simp [Sys.start] at hc) (by intro e he; simp [Sys.start] at he)
+  obtain ⟨hm, hres⟩ := seq_loads_same k m0 _ _ hex hops
+  refine ⟨by rw [hm]; exact h0, fun e he => ?_⟩
+  rw [hres e he, h0]; rfl
+
+/-- … so no definition gets lost in the parallel scan: when every goroutine stores its definition in the ONE registry `w`
+    it was handed, every one of them is in `w` afterwards, in whatever order the stores arrive. -/
+theorem C20_direct_scan_no_definition_lost (w : Nat) (regs : Nat → List Nat) (acts : List (Nat × Nat))
+    (h : ∀ a, a ∈ acts → a.1 = w) : ∀ a, a ∈ acts → a.2 ∈ scanStores regs acts w := by
+  intro a ha
+  have := scanStores_mem acts regs a ha
+  rwa [h a ha] at this
+
+/-- A getter that creates the registry when it finds the field empty is a check-then-act (`[Load, f, Store]`) on the field:
+    two goroutines that both pass the check are handed two DIFFERENT registries (a write to the field concurrent with the
+    other's read: a data race), the field keeps the last one, and the definition the other goroutine stores is in a registry
+    nobody holds any more. -/
+theorem C20_lazy_registry_counterexample :
+    gotVals (run oldProgs (Sys.start emptyMap (gmorQueues 2)) (gmorSched 2)).hist = [11, 10] ∧
+    (run oldProgs (Sys.start emptyMap (gmorQueues 2)) (gmorSched 2)).map 1 = some 11 ∧
+    scanStores (fun _ => []) [(10, 0), (11, 1)] 11 = [1] := by
+  decide
+
+-- the run the driver makes for `fdirect 3 tr …` (five goroutines): nobody lost, everybody handed the registry that is kept;
+-- and the hypotheses of the two theorems hold for it
+example : fdirectObs 5 = (0, 0) := by decide
+example : fieldAfterDefault 1 = some 7 ∧ ∀ t op, op ∈ getterQueues 5 t → op = .load 1 := by
+  refine ⟨rfl, fun t op h => ?_⟩
+  unfold getterQueues at h
+  split at h
+  · simpa using h
+  · simp at h
 
 end Ioc.C20
